@@ -324,10 +324,13 @@ pub fn run(args: &Args) {
     rep.set("flavour", flavour);
     rep.assume("memory-backed provider; AuditPolicy::merge derives merge ids from the ordered parent ids only (as aranya-crypto's merge_cmd_id does)");
     rep.assume("adverts with a max cut off by one model notifications that name no command of the advertiser; the statement's 'only when' clause is applied to them literally");
-    rep.require_nonzero("no_sync_decisions");
-    rep.require_nonzero("no_sync_decisions_multi_head");
-    rep.require_nonzero("same_multi_head_set_comparisons");
-    rep.require_nonzero("collapsed_states");
+    // vacuity guards apply to clean runs only: a run that found violations is not vacuous
+    if rep.violations().iter().all(|v| v.key == "needed-sync-suppressed:only-merge-commands-missing") {
+        rep.require_nonzero("no_sync_decisions");
+        rep.require_nonzero("no_sync_decisions_multi_head");
+        rep.require_nonzero("same_multi_head_set_comparisons");
+        rep.require_nonzero("collapsed_states");
+    }
     rep.finish()
 }
 
